@@ -55,6 +55,8 @@ type FuncContract struct {
 	NoBody   bool // interface method / function parameter contract
 	Pure     bool
 	FnParams map[string]string // parameter name -> contract key it implements
+	Implements string          // key of the (no-body) contract this function must satisfy
+	Defines  []*Clause          // closure contracts: F(self) == expr, assumed at creation (definitional on the fresh closure)
 	Nullable map[string]bool
 }
 
@@ -115,7 +117,7 @@ func newContracts() *Contracts {
 var clauseKeywords = map[string]bool{
 	"spec": true, "pred": true, "axiom": true, "ghost": true, "func": true, "requires": true, "ensures": true,
 	"modifies": true, "use": true, "decreases": true, "inline": true, "trusted": true, "loop": true, "end": true,
-	"invariant": true, "package": true, "fnparam": true, "nullable": true, "pure": true, "nobody": true, "gaxiom": true, "useret": true,
+	"invariant": true, "package": true, "fnparam": true, "nullable": true, "pure": true, "nobody": true, "gaxiom": true, "useret": true, "implements": true, "define": true,
 }
 
 var labelRe = regexp.MustCompile(`^\[([A-Za-z0-9,]*):([A-Za-z0-9_\-./]+)\]\s*`)
@@ -336,6 +338,31 @@ func (cs *Contracts) loadFile(path string, goFile bool) error {
 				k = pkg + "." + k
 			}
 			cur.FnParams[f[0]] = k
+		case "implements":
+			if cur == nil {
+				return fail(fmt.Errorf("implements outside func"))
+			}
+			k := rest
+			if strings.HasPrefix(k, "(") {
+				// (Iface) method
+				m := funcHdrRe.FindStringSubmatch(k)
+				if m == nil {
+					return fail(fmt.Errorf("bad implements target %q", k))
+				}
+				k = pkg + "." + m[1] + "." + m[2]
+			} else if !strings.Contains(k, ".") {
+				k = pkg + "." + k
+			}
+			cur.Implements = k
+		case "define":
+			if cur == nil {
+				return fail(fmt.Errorf("define outside func"))
+			}
+			c, err := mkClause("define")
+			if err != nil {
+				return err
+			}
+			cur.Defines = append(cur.Defines, c)
 		case "nullable":
 			if cur == nil {
 				return fail(fmt.Errorf("nullable outside func"))
